@@ -5,18 +5,54 @@ import json, os, subprocess
 VERIF = os.path.dirname(os.path.dirname(os.path.abspath(__file__)))
 
 # property -> (level, technique, text, note, design_ref)
+TECH_MC = "TLC model checking of the TLA+ pipeline specs (MCCompress/MCExpand) + TLC trace validation of hooked runs of the real binary"
+NOTE_MC = ("Exhaustive only within the constants of tools/shapes.py; real schedules/configurations are sampled "
+           "(seeded).  Trusted: TLC, the hook layer (events logged under the protecting monitor), libbz2 and "
+           "tools/bzfmt.py as independent decoders, tools/bzcraft.py for planted-pattern files.")
 CLAIMED = {
-    "C11": ("model_checking",
-            "TLC model checking of MCCompress/MCExpand (TLA+) + TLC trace validation of hooked runs",
+    "C01": ("model_checking", TECH_MC,
+            "TLC: every input unit reaches the writer exactly once and in order for every interleaving, both "
+            "modes (MCCompress), and the decompressor writes exactly the sequential decoding (MCExpand).  Real "
+            "round-trip sessions over the input families of the property x levels x modes x worker counts with "
+            "every compress/decompress trace validated against the specs (per-block weight/size/CRC identity "
+            "from encoding to hand-over).  The transform arithmetic is covered by the sampled sessions only.",
+            NOTE_MC, "DESIGN.md 3 (C01)"),
+    "C03": ("model_checking", TECH_MC,
+            "TLC: the block sequence handed to the writer is schedule independent (MCCompress).  Real runs: each "
+            "input compressed under many (workers incl. 38-64, schedule seed, stdin/pipe/FILE/-c, short reads, "
+            "short writes, slow producer) combinations must give byte-identical output; traces validated.",
+            NOTE_MC, "DESIGN.md 3 (C03)"),
+    "C04": ("model_checking",
+            "TLC proof-by-enumeration that Rle.tla (transcribed collect()) equals the declarative greedy rule + replay of every TLC behaviour through the real collect() + calibrated rule oracle on real outputs",
+            "Rle.tla's machine is checked equal to the longest-prefix rule for all inputs over small alphabets, "
+            "all capacities and all splits into buffer calls (plus runs around 259/518); the same behaviours are "
+            "replayed 1:1 through the working tree's collect() at tiny capacities (exhaustive over the bounds). "
+            "Process level: block boundaries recovered from real outputs must equal the rule in both modes.",
+            "In-process leg exhaustive over the bounds in tools/inproc.py; process-level leg sampled.  Trusted: "
+            "TLC, harness/replay_rle.c (field reads only), tools/bzfmt.py.", "DESIGN.md 3 (C04)"),
+    "C09": ("model_checking", TECH_MC + " + Emit.tla behaviours replayed through the real emit()",
+            "TLC: Out = SeqOut for every interleaving and I/O-block placement (MCExpand); Emit.tla checked equal "
+            "to the declarative run-length decoding for every suspension point and replayed through the real "
+            "emit().  Real runs: each input decompressed under many (workers, seed, input block size, output "
+            "buffer size, fragmentation, stdout/file/-c/-t) combinations must agree on status and bytes.",
+            NOTE_MC + "  Known finding (partial output of a failing run) listed in known-findings.jsonl.",
+            "DESIGN.md 3 (C09)"),
+    "C10": ("model_checking", TECH_MC,
+            "TLC: with spurious candidates of every kind in the shape, only the sequential decoding reaches the "
+            "writer and failure happens exactly when it fails (MCExpand).  Real runs: planted-pattern files "
+            "(nested failing / long / complete valid candidates, patterns straddling I/O blocks, whole blocks and "
+            "streams in trailing garbage) under tiny I/O blocks, starved slots and perturbed schedules; output "
+            "must be the sequential decoding; traces validated (a buffer reaches the writer only at the position "
+            "the parser confirmed next); discard-path counters guard against vacuity.",
+            NOTE_MC, "DESIGN.md 3 (C10)"),
+    "C11": ("model_checking", TECH_MC,
             "Every interleaving of the monitor, reader, writer and workers is explored by TLC for the small "
             "worker/slot/shape constants of tools/shapes.py (deadlock, queue capacity, unit/slot conservation, "
             "stream-order hand-over, termination under fairness), with the thresholds and task priorities read "
             "from the binary's own Init events.  The same specification validates, event by event, traces "
             "recorded from perturbed runs of the real binary in the starved-slot / tiny-I/O-block regime the "
             "model explores; hangs, crashes and wrong results of those runs are violations.",
-            "Exhaustive only within the stated constants; real schedules are sampled.  Trusted: TLC, the hook "
-            "layer (events logged under the protecting monitor), tools/bzcraft.py for the planted-pattern files.",
-            "DESIGN.md 2.1-2.2, 3 (C11)"),
+            NOTE_MC, "DESIGN.md 2.1-2.2, 3 (C11)"),
 }
 
 NOT_YET = "check not built yet in this round; planned in DESIGN.md section 3"
